@@ -184,6 +184,7 @@ theorem psV3Connack_sendok (c : C) (p : Pkt) : SendOK c (psV3Connack c p) := by
   · exact .inl ⟨by simp, by simp⟩
   · exact .inr (.inl (by simp))
   · exact .inr (.inr ⟨_, rfl, stev_of_tev (by simp)⟩)
+  · exact .inr (.inr ⟨_, rfl, stev_of_tev (by simp)⟩)
 
 @[simp] theorem connackSendProp_stev (c : C) (id v : Nat) :
     stev (connackSendProp c id v).ev = stev c.ev := by
@@ -204,8 +205,11 @@ theorem psV5Connack_sendok (c : C) (p : Pkt) : SendOK c (psV5Connack c p) := by
   by_cases hr : p.rc = some 0
   · simp only [hr, if_true, ne_eq, not_true_eq_false, if_false]
     refine .inr (.inr ⟨_, rfl, ?_⟩)
-    rw [stev_of_tev (sendStored_tv _).2.1]
-    simp [isSendTimerEv]
+    split
+    · rw [stev_of_tev (sendStored_tv _).2.1]
+      simp [isSendTimerEv]
+    · rw [stev_of_tev (clearStoreRelated_tv _).2.1]
+      simp [isSendTimerEv]
   · simp only [hr, if_false, ne_eq, not_false_eq_true, if_true]
     exact .inr (.inl (by simp))
 
